@@ -240,6 +240,15 @@ Proof.
   rewrite !ttns_scale_dense. reflexivity.
 Qed.
 
+(* the represented vector coeff' * tamp' is  ca * A + cb * B  in both branches of TTNS.add *)
+Lemma ttns_add_state_dense ceq ca cb a b : (ceq ca cb = true -> ca = cb) -> tshape a = tshape b -> forall s p,
+  fst (tadd_state R ceq ca cb a b) * tamp (snd (tadd_state R ceq ca cb a b)) s p = ca * tamp a s p + cb * tamp b s p.
+Proof.
+  intros Hceq Hs s p. unfold tadd_state. destruct (ceq ca cb) eqn:E; cbn [fst snd].
+  - rewrite <- (Hceq eq_refl). rewrite (ttns_add_dense a b Hs). ring.
+  - rewrite (ttns_add_coeff_dense ca cb a b Hs). ring.
+Qed.
+
 (* ------------------------------------------------------------------ congruence *)
 (* everything the amplitude of a parent sees of a child *)
 Definition tequiv (t t' : ttree) : Prop :=
